@@ -82,13 +82,27 @@ def build(repo, tier):
     for fmt in ('Binary', 'Pretty'):
         pass
     units.append(Unit('C19/py/ProofExp.serialize: same pipeline for binary and pretty', serialize_unit(repo), use_lemmas=False))
+    from contracts.pretty import pretty_method_unit, print_stack_unit, STEP_NAME, PPFILE
+    from contracts.pattern_family import c12_contracts
+    from contracts.interp_sim import PHASES_OF
+    cs = c12_contracts(None)
+    units.append(Unit('C19/py/PrettyPrintingInterpreter.print_stack', print_stack_unit(repo, cs)))
+    for m in STEP_NAME:
+        if m in ('metavar', 'instantiate', 'instantiate_pattern'):
+            continue            # their step lines are built by loops / joins over symbolic-length containers: bounded stand-in only
+        for ph in PHASES_OF.get(m, ['Proof']):
+            units.append(Unit(f'C19/py/PrettyPrintingInterpreter.{m}/{ph}', pretty_method_unit(repo, cs, m, ph), info={'split_depth': 1}))
+            fns.append((PPFILE, f'PrettyPrintingInterpreter.{m} (through the pretty() decorator)'))
     fns += [(PFILE, 'Notation.print_instantiation'), (PFILE, 'Notation.__call__'), ('generation/src/proof_generation/proof.py', 'ProofExp.serialize')]
-    spec = PropSpec('C19', units, {}, {}, trusted=TRUSTED_ENGINE,
+    from .c04 import py_lib
+    lib = py_lib(None)
+    units = lemma_units(lib) + units
+    spec = PropSpec('C19', units, lib, {}, trusted=TRUSTED_ENGINE,
                     assumptions=PY_ASSUMPTIONS + [
                         'str.format semantics: placeholders are found with string.Formatter().parse on the format string in which symbolic pieces (str(var), symbol names) are brace-free',
                         'rendering of an argument is an opaque string; "printed differently" is decided up to the delimiters of the format string (str.format does not guarantee unambiguous concatenation)',
                         'nary_app is checked for arities 0..12, which includes two-digit placeholders (bounded in the arity only; symbol and cell flag arbitrary)',
-                        'binary side: one instruction per interpreter call is C04; pretty side: the decorator-generated methods of PrettyPrintingInterpreter are NOT under contract - one step per call and the step/instruction correspondence are decided by the bounded stand-in only'],
+                        'binary side: one instruction per interpreter call is C04; pretty side: 21 of the 24 decorator-generated methods of PrettyPrintingInterpreter are executed through the real decorator (one step line, starting with the instruction name, then only tab-indented lines; print_stack under a loop contract); metavar / instantiate / instantiate_pattern and whole files: bounded stand-in only', 'renderings of patterns, symbol names, numbers and the id text passed to load() contain no line break'],
                     functions=fns)
 
     def standin(tier, seed):
